@@ -569,6 +569,33 @@ pub fn run(cx: &mut Cx, which: Which) {
             });
         }
     });
+    // 1 run in 4 (C19): a presentation whose hidden-position list names one position TWICE (a list
+    // is a set; a caller that merges two lists produces this).  The two responses for that position
+    // may well be equal -- nothing else of the monitor is applied to this frame -- but each must
+    // still carry a blinding term: s_5[k] - c * m_i is never zero
+    if which == Which::Masking && !hidden.is_empty() && cx.run_index % 4 == 2 {
+        let mut hidden_d = hidden.clone();
+        let dup = hidden_d[cx.ch.choose("dup_which", hidden_d.len() as u64) as usize];
+        let at = cx.ch.choose("dup_at", hidden_d.len() as u64 + 1) as usize;
+        hidden_d.insert(at, dup);
+        cx.count("probe.hidden_position_listed_twice");
+        let (kd, md, hd) = (key.clone(), msgs.clone(), hidden_d.clone());
+        let msgs_d = msgs.clone();
+        let dupper = cx.node("presenter-dup");
+        cx.step(issuer, "sign-for-dup", StepOpts::default(), move || { let sig = issue_plain(&kd, &md); holder_present(&kd, &sig, &md, &hd) }, move |cx, st| {
+            let Ok(pj) = st.out else { cx.log("proof_gen with a repeated hidden position failed (C15's business)".into()); return; };
+            let v = parse(&pj);
+            cx.eval(&[b"pok-dup", pj.as_bytes()], true);
+            let (Some(c), Some(arr)) = (int_of(&v["CL03"]["spok"]["challenge"]), v["CL03"]["spok"]["s_5"].as_array()) else { return };
+            for (k, sv) in arr.iter().enumerate() {
+                let (Some(s5), Some(&i)) = (int_of(sv), hidden_d.get(k)) else { continue };
+                if msgs_d[i].significant_bits() <= 64 { continue; }
+                cx.count("n.division_tests");
+                if Integer::from(&s5 - Integer::from(&c * &msgs_d[i])) == 0 { cx.violation("C19", "PoKSignature/CL03.spok.s_5[*]/blinder-is-zero/CL03.spok.challenge/hidden-attribute".into(), format!("hidden list {hidden_d:?}: s_5[{k}] = challenge * m_{i} exactly: the response for a position listed twice has no blinding term")); }
+            }
+        });
+        let _ = dupper;
+    }
     // 1 run in 3: a BURST of presentations -- four holder threads leave a barrier into proof_gen at
     // the same instant, three rounds each (the real-time overlap a pure baton cannot produce; see
     // DESIGN.md 10.2 on bursts).  All twelve frames go through the same history: no group element,
